@@ -1661,13 +1661,8 @@ def run_authoritative(ctx, r):
                                     "still be a guess (path: %s)" % w.brief(), w)
 
 
-def run_complete_before_submit(ctx, r):
-    """Share._satisfy_*: data is handed to its consumer (struct parse, UEB check, hash tree, block check) only when
-    every piece fetched for it has arrived.  Read answers arrive in any order and the loop runs after each one, so a
-    partially answered request is the normal case: submitting it makes the hash tree raise NotEnoughHashesError /
-    the parser fail, and a good share is reported corrupt and abandoned."""
-    idx = ctx.idx
-    plain = _plain()
+def _satisfy_stages(idx):
+    """The _satisfy_* stages of Share._get_satisfaction: methods it calls on self that read the span store."""
     share = idx.cls(SHARE)
     gs = idx.func(SHARE + "._get_satisfaction")
     store = "self._received"
@@ -1677,6 +1672,64 @@ def run_complete_before_submit(ctx, r):
     stages = [m for m in _self_callees(gs, share) if any(is_fetch(c) for c in calls_in_func(m, None, into_lambda=True))]
     if len(stages) < 6:
         raise AnchorVanished("_get_satisfaction: fewer than 6 _satisfy_* stages read %s (%s)" % (store, [m.name for m in stages]))
+    return share, gs, store, is_fetch, stages
+
+
+def _absent_edges(cfg, rd, plain, fnode, X):
+    """[(test node, label, successor)]: the edges on which the value X fetched at fnode is absent (falsy / None)."""
+    missing = []
+    for t in cfg.nodes:
+        if t.kind != "test" or rd.get(t.id, {}).get(X) != frozenset([fnode.id]):
+            continue
+        if X not in names_in(t.ast):
+            continue
+        for (d, lab) in cfg.succ[t.id]:
+            if not isinstance(lab, tuple):
+                continue
+            f = plain.cmp(t.ast, lab[0] == "T")
+            if f and ((f[0] == "false" and f[1] == X) or (f[0] in ("is", "==") and {f[1], f[2]} == {X, "None"})):
+                missing.append((t, lab, cfg.nodes[d]))
+    return missing
+
+
+def _flag_step(n, lab, st, plain):
+    """Tiny constant propagation of local boolean flags along one CFG edge: returns the new frozenset of
+    (name, bool) facts, or None when the edge contradicts a flag set on this path."""
+    d = dict(st)
+    if n.kind == "test" and isinstance(lab, tuple):
+        f = plain.cmp(n.ast, lab[0] == "T")
+        if f and f[0] in ("truth", "false") and f[1] in d and d[f[1]] != (f[0] == "truth"):
+            return None
+    if n.kind == "stmt":
+        for s_ in node_stores(n):
+            d.pop(s_, None)
+        a = n.ast
+        if isinstance(a, ast.Assign) and len(a.targets) == 1 and isinstance(a.targets[0], ast.Name) \
+                and isinstance(a.value, ast.Constant) and isinstance(a.value.value, bool):
+            d[a.targets[0].id] = a.value.value
+    return frozenset(d.items())
+
+
+def _return_truth(q, flags):
+    """True / False when the return node q certainly returns a true / false value, None when unknown."""
+    v = q.ast.value
+    if v is None:
+        return False
+    if isinstance(v, ast.Constant):
+        return bool(v.value)
+    if isinstance(v, ast.Name) and v.id in flags:
+        return flags[v.id]
+    return None
+
+
+def run_complete_before_submit(ctx, r):
+    """Share._satisfy_*: data is handed to its consumer (struct parse, UEB check, hash tree, block check) only when
+    every piece fetched for it has arrived.  Read answers arrive in any order and the loop runs after each one, so a
+    partially answered request is the normal case: submitting it makes the hash tree raise NotEnoughHashesError /
+    the parser fail, and a good share is reported corrupt and abandoned."""
+    idx = ctx.idx
+    plain = _plain()
+    share, gs, store, is_fetch, stages = _satisfy_stages(idx)
     for m in stages:
         cfg = m.cfg()
         rd = FlowNorm(m).rd
@@ -1709,18 +1762,7 @@ def run_complete_before_submit(ctx, r):
                 if not cons:
                     raise AnchorVanished("%s: no consumer of the fetched %s found" % (short(m), X))
                 # the edges on which the fetched value is absent
-                missing = []
-                for t in cfg.nodes:
-                    if t.kind != "test" or rd.get(t.id, {}).get(X) != frozenset([fnode.id]):
-                        continue
-                    if X not in names_in(t.ast):
-                        continue
-                    for (d, lab) in cfg.succ[t.id]:
-                        if not isinstance(lab, tuple):
-                            continue
-                        f = plain.cmp(t.ast, lab[0] == "T")
-                        if f and ((f[0] == "false" and f[1] == X) or (f[0] in ("is", "==") and {f[1], f[2]} == {X, "None"})):
-                            missing.append((t, lab, cfg.nodes[d]))
+                missing = _absent_edges(cfg, rd, plain, fnode, X)
                 if not missing:
                     q = cons[0]
                     r.violation(m, m.loc(fc), "%s = %s is never tested for absence before %s uses it: the answer to this read "
@@ -1775,6 +1817,174 @@ def run_complete_before_submit(ctx, r):
                                     "before the rest of the request is known to have arrived" % (src(m, consumes(q)), X))
 
 
+def run_satisfaction_loop(ctx, r):
+    """Share._do_loop runs `while self._get_satisfaction(): pass` after every read answer; the answers come in any
+    order, so every round sees an arbitrary subset of the requested spans.  Three structural conditions keep a round
+    from (A) running a later stage on data an earlier stage reported absent, (B) claiming progress without retiring
+    the request at the head of the queue, (C) giving up although nothing was absent."""
+    idx = ctx.idx
+    plain = _plain()
+    share, gs, store, is_fetch, stages = _satisfy_stages(idx)
+    cfg = gs.cfg()
+    rd = FlowNorm(gs).rd
+    by_name = {m.name: m for m in stages}
+
+    def stage_calls(n):
+        out = []
+        for c in node_calls(n):
+            nm = call_name(c)
+            if nm.startswith("self.") and nm.count(".") == 1 and nm.split(".")[1] in by_name:
+                out.append(c)
+        return out
+
+    def noexc(a_, l_, nx, st_):
+        return None if l_ == "exc" else 0
+
+    # the request queue whose head the round works on
+    act = idx.func(SHARE + "._active_segnum_and_observers")
+    queues = {attr_path(x.value) for n in act.cfg().find(is_return) for x in own_nodes(n.ast)
+              if isinstance(x, ast.Subscript) and isinstance(x.slice, ast.Constant) and x.slice.value == 0}
+    queues.discard(None)
+    if len(queues) != 1 or not next(iter(queues)).startswith("self."):
+        raise AnchorVanished("_active_segnum_and_observers no longer returns the head of one request queue (%s)" % sorted(queues))
+    queue = queues.pop()
+
+    def retires(n):
+        for c in node_calls(n):
+            if isinstance(c.func, ast.Attribute) and attr_path(c.func.value) == queue and c.func.attr in ("pop", "popleft", "remove", "clear"):
+                return True
+        if n.kind == "stmt" and isinstance(n.ast, ast.Delete):
+            return any(isinstance(t, ast.Subscript) and attr_path(t.value) == queue for t in n.ast.targets)
+        return n.kind == "stmt" and isinstance(n.ast, (ast.Assign, ast.AugAssign)) and queue in node_stores(n)
+
+    # ---- (A) the unsatisfied edge of every stage leaves the round before any other stage runs
+    tested, returned = [], []
+    for n in cfg.nodes:
+        for c in stage_calls(n):
+            m = by_name[call_name(c).split(".")[1]]
+            if n.kind == "stmt" and isinstance(n.ast, ast.Return) and n.ast.value is c:
+                returned.append((n, c, m))
+                r.site(gs, c, "%s: last stage, its result is the result of the round" % m.name)
+                continue
+            r.site(gs, c, "%s: unsatisfied -> the round ends before any later stage" % m.name)
+            unsat = []
+            if n.kind == "test" and n.ast is c:
+                unsat = [(n, lab, cfg.nodes[d]) for (d, lab) in cfg.succ[n.id] if isinstance(lab, tuple) and lab[0] == "F"]
+            elif n.kind == "stmt" and isinstance(n.ast, ast.Assign) and n.ast.value is c and len(n.ast.targets) == 1 \
+                    and isinstance(n.ast.targets[0], ast.Name):
+                unsat = _absent_edges(cfg, rd, plain, n, n.ast.targets[0].id)
+            if not unsat:
+                r.violation(gs, gs.loc(c), "the result of %s is not tested: when the answer to its read has not arrived yet the "
+                            "round goes on to the later stages, which use hashes / offsets that are not there, raise, and the "
+                            "good share is reported corrupt and abandoned" % src(gs, c))
+                continue
+            tested.append(m)
+            told = set()
+            for (t, lab, first) in unsat:
+                vis, par = explore(cfg, 0, noexc, start=first)
+                r.count(len(vis))
+                for (nid, st) in sorted(vis):
+                    q = cfg.nodes[nid]
+                    later = stage_calls(q)
+                    if later and "s" not in told:
+                        told.add("s")
+                        w = witness(cfg, par, (nid, st))
+                        r.violation(gs, gs.loc(later[0]), "%s runs although %s reported its data absent (answers to reads arrive "
+                                    "in any order): the later stage works on hashes / offsets that are not there, raises, and "
+                                    "the good share is reported corrupt and abandoned (path from the unsatisfied edge at %s: %s)" % (
+                                        src(gs, later[0]), m.name, gs.loc(t.ast), w.brief()), w)
+                    elif is_return(q) and _return_truth(q, {}) is not False and not stage_calls(q) and "r" not in told:
+                        told.add("r")
+                        w = witness(cfg, par, (nid, st))
+                        r.violation(gs, gs.loc(q.ast), "the round reports progress (%s) although %s found its data absent: "
+                                    "_do_loop calls it again at once, forever (path: %s)" % (src(gs, q.ast), m.name, w.brief()), w)
+    if len(tested) + len(returned) < 6 or len(returned) != 1:
+        raise AnchorVanished("_get_satisfaction: expected >= 5 tested stages and one returned stage, found %d / %d" % (
+            len(tested), len(returned)))
+
+    # ---- (B) a round returns a true value only after the head request was retired
+    def check_retire(fn, fcfg, what):
+        def transfer(n, lab, nxt, st):
+            if lab == "exc":
+                return None
+            done, flags = st
+            flags = _flag_step(n, lab, flags, plain)
+            if flags is None:
+                return None
+            return (done or retires(n), flags)
+        vis, par = explore(fcfg, (False, frozenset()), transfer)
+        r.count(len(vis))
+        told = set()
+        for q in fcfg.find(is_return):
+            if _return_truth(q, {}) is not False and not any(q is n_ for (n_, _c, _m) in returned):
+                r.site(fn, q.ast, "%s only after %s is retired" % (src(fn, q.ast), queue))
+        for (nid, st) in sorted(vis, key=lambda x: (x[0], x[1][0], sorted(x[1][1]))):
+            q = fcfg.nodes[nid]
+            if not is_return(q) or st[0] or nid in told or any(q is n_ for (n_, _c, _m) in returned):
+                continue
+            if _return_truth(q, dict(st[1])) is False:
+                continue
+            told.add(nid)
+            w = witness(fcfg, par, (nid, st))
+            r.violation(fn, fn.loc(q.ast), "%s %s (%s) without removing the head of %s: the share keeps working on the same "
+                        "request (the loop `while _get_satisfaction()` runs again with the same head; a BADSEGNUM round "
+                        "never ends, a delivered block is fetched and delivered again and later segments are never "
+                        "served) (path: %s)" % (short(fn), what, src(fn, q.ast), queue, w.brief()), w)
+    check_retire(gs, cfg, "reports progress")
+    for (_n, _c, m) in returned:
+        check_retire(m, m.cfg(), "reports the block as retired")
+
+    # ---- (C) a tested stage reports 'unsatisfied' only on a path on which a fetched piece was absent
+    for m in tested:
+        mcfg = m.cfg()
+        mrd = FlowNorm(m).rd
+        absent = set()
+        for fnode in mcfg.nodes:
+            for fc in [c for c in node_calls(fnode) if is_fetch(c)]:
+                if fnode.kind == "stmt" and isinstance(fnode.ast, ast.Assign) and fnode.ast.value is fc \
+                        and len(fnode.ast.targets) == 1 and isinstance(fnode.ast.targets[0], ast.Name):
+                    for (t, lab, first) in _absent_edges(mcfg, mrd, plain, fnode, fnode.ast.targets[0].id):
+                        absent.add((t.id, lab[0]))
+        if not absent:
+            raise AnchorVanished("%s: no absent-data edge found" % short(m))
+
+        def transfer(n, lab, nxt, st, _absent=absent):
+            if lab == "exc":
+                return None
+            seen, flags = st
+            flags = _flag_step(n, lab, flags, plain)
+            if flags is None:
+                return None
+            if isinstance(lab, tuple) and (n.id, lab[0]) in _absent:
+                seen = True
+            return (seen, flags)
+        vis, par = explore(mcfg, (False, frozenset()), transfer)
+        r.count(len(vis))
+        told = set()
+        for (nid, st) in sorted(vis, key=lambda x: (x[0], x[1][0], sorted(x[1][1]))):
+            q = mcfg.nodes[nid]
+            if is_return(q) and not st[0] and _return_truth(q, dict(st[1])) is False and nid not in told:
+                told.add(nid)
+                w = witness(mcfg, par, (nid, st))
+                r.violation(m, m.loc(q.ast), "%s reports the stage as unsatisfied (%s) on a path on which every piece it fetched "
+                            "had arrived: the round ends, and when these were the last answers outstanding nothing runs "
+                            "the loop again - the data for the later stages sits in the span store and the download stalls "
+                            "(path: %s)" % (short(m), src(m, q.ast), w.brief()), w)
+        # falling off the end is `return None`
+        for (nid, st) in sorted(vis, key=lambda x: (x[0], x[1][0], sorted(x[1][1]))):
+            q = mcfg.nodes[nid]
+            if is_return(q) or q.kind in ("exit", "raise", "entry") or "x" in told:
+                continue
+            for (d, lab) in mcfg.succ[nid]:
+                nst = transfer(q, lab, mcfg.nodes[d], st)
+                if mcfg.nodes[d].kind == "exit" and nst is not None and not nst[0]:
+                    told.add("x")
+                    w = witness(mcfg, par, (nid, st))
+                    r.violation(m, m.loc(q.ast), "%s can fall off its end (returning None = unsatisfied) on a path on which "
+                                "every piece it fetched had arrived: the round ends and, when these were the last answers "
+                                "outstanding, the download stalls (path: %s)" % (short(m), w.brief()), w)
+                    break
+
 # ====================================================================== driver
 def run(ctx: Context):
     idx = ctx.idx
@@ -1821,3 +2031,9 @@ def run(ctx: Context):
                   "edge on which a fetched span is absent reaches no consumer of that data and returns a false value; "
                   "no consumer sits inside the fetch loop", expected=8) as r:
         run_complete_before_submit(ctx, r)
+
+    with ctx.rule("C01.10", "R1", "satisfaction rounds (run after every read answer, answers in any order): the unsatisfied "
+                  "edge of every _satisfy_* stage ends the round before a later stage runs; a round reports progress only "
+                  "after the head request was retired; a stage reports 'unsatisfied' only when a fetched piece was absent",
+                  expected=8) as r:
+        run_satisfaction_loop(ctx, r)
